@@ -113,7 +113,7 @@ impl AbstractInstructionSet {
                                 (
                                     Some(RegContents::Constant(c1)),
                                     Some(RegContents::Constant(c2)),
-                                ) => {
+                                ) if c1.checked_mul(*c2).is_some() => {
                                     reg_contents
                                         .insert(dest.clone(), RegContents::Constant(c1 * c2));
                                     record_new_def(&mut latest_version, dest);
